@@ -482,6 +482,36 @@ func (g *genState) genC16() {
 		}
 		prog += ";merge@0 " + hexs + ";build@0"
 		g.emit("merge-preserves-unknown", "w,g,x="+tree.Canon(dst), prog)
+		// the same merge into a nested message: under a parent that has already written fields of
+		// its own (the parent's table entries precede the nested message's in the writer), and as an
+		// element of a list
+		pre1 := make([]string, len(pre))
+		for j, c := range pre {
+			pre1[j] = strings.Replace(c, "f@0 ", "f@1 ", 1)
+		}
+		outer := &tree.Node{Kind: "msg"}
+		nested := "msg"
+		for k, nk := 0, 1+g.r.Intn(3); k < nk; k++ {
+			v := tg.Scalar()
+			t := uint16(1 + k + g.r.Intn(2)*300)
+			outer.Tags = append(outer.Tags, t)
+			outer.Fields = append(outer.Fields, v)
+			nested += fmt.Sprintf(";f@0 %d %s %s", t, v.Kind, scalarArgOf(v))
+		}
+		outer.Tags = append(outer.Tags, 7000)
+		outer.Fields = append(outer.Fields, dst)
+		nested += ";fmsg@0 7000"
+		if len(pre1) > 0 {
+			nested += ";" + strings.Join(pre1, ";")
+		}
+		nested += ";merge@1 " + hexs + ";end@1;build@0"
+		g.emit("merge-nested-field", "w,g,x="+tree.Canon(outer), nested)
+		inList := "list;e@0 i32 5;emsg@0"
+		if len(pre1) > 0 {
+			inList += ";" + strings.Join(pre1, ";")
+		}
+		inList += ";merge@1 " + hexs + ";end@1;build@0"
+		g.emit("merge-nested-element", "w,g,x="+tree.Canon(&tree.Node{Kind: "list", Elems: []*tree.Node{{Kind: "i32", I: 5}, dst}}), inList)
 		// reorder / remove: writing the surviving fields in another order gives the same reading
 		perm := append([]uint16{}, src.Tags...)
 		m2 := &tree.Node{Kind: "msg"}
